@@ -1011,7 +1011,11 @@ def net_io_counters():
     for line in lines[2:]:
         colon = line.rfind(':')
         assert colon > 0, repr(line)
-        name = line[:colon].strip()
+        # The kernel right-aligns the name with blanks ("%6s:"); remove
+        # only those. A bare strip() would also eat characters which
+        # are legal at either end of an interface name (0x1c-0x1f,
+        # Unicode spaces) and merge e.g. "a\x1f" into "a".
+        name = line[:colon].strip(' ')
         fields = line[colon + 1 :].strip().split()
 
         (
